@@ -185,6 +185,24 @@ class Interp:
                 raise Unsupported('assertion of the interpreted function fails: %s' % ast.unparse(s.test))
         elif isinstance(s, ast.Pass):
             pass
+        elif isinstance(s, ast.FunctionDef):
+            env[s.name] = ('#def', s, env, mod)
+        elif isinstance(s, ast.Delete):
+            for t in s.targets:
+                if isinstance(t, ast.Subscript):
+                    o = self.expr(t.value, env, mod)
+                    if isinstance(t.slice, ast.Slice):
+                        lo = self.expr(t.slice.lower, env, mod) if t.slice.lower else None
+                        hi = self.expr(t.slice.upper, env, mod) if t.slice.upper else None
+                        del o[lo:hi]
+                    elif isinstance(o, Obj):
+                        del o.items[self.expr(t.slice, env, mod)]
+                    else:
+                        del o[self.expr(t.slice, env, mod)]
+                elif isinstance(t, ast.Name):
+                    env.pop(t.id, None)
+                else:
+                    raise Unsupported('del %s' % type(t).__name__)
         elif isinstance(s, ast.Raise):
             raise Raised('interpreted function raises: %s' % ast.unparse(s)[:60])
         else:
@@ -332,6 +350,14 @@ class Interp:
                     return o.attrs[e.attr]
                 if e.attr == '__dict__':
                     return o.attrs
+                if o.cls is not None:
+                    for q in self.prog.mro(o.cls.qn):
+                        c_ = self.prog.classes.get(q)
+                        if c_ is None:
+                            continue
+                        for b in c_.node.body:
+                            if isinstance(b, ast.Assign) and any(isinstance(t, ast.Name) and t.id == e.attr for t in b.targets):
+                                return self.expr(b.value, {}, c_.mod)
                 if e.attr == '__class__' and o.cls is not None:
                     return ('#classof', o.cls)
                 m = self.prog.lookup_method(o.cls.qn, e.attr) if o.cls else None
@@ -383,7 +409,7 @@ class Interp:
             return self.extra_calls[full](*args, **kwargs)
         if isinstance(fn, ast.Name) and fn.id in ('hasattr', 'getattr', 'vars') and fn.id not in env and args:
             o = args[0]
-            if _is_model(o):
+            if _is_model(o) or _foreign(self, o):
                 return {'hasattr': hasattr, 'getattr': getattr, 'vars': vars}[fn.id](*args)
             if isinstance(o, Obj):
                 if fn.id == 'vars':
@@ -460,6 +486,26 @@ class Interp:
                 return o
         if isinstance(f, tuple) and f and f[0] == '#bound':
             return self.invoke(f[1], args, kwargs, f[2])
+        if isinstance(f, tuple) and f and f[0] == '#def':
+            node, cenv, mod = f[1], f[2], f[3]
+            env = dict(cenv)
+            names = [a.arg for a in node.args.args]
+            defaults = node.args.defaults
+            for i, nm in enumerate(names):
+                if i < len(args):
+                    env[nm] = args[i]
+                elif nm in kwargs:
+                    env[nm] = kwargs[nm]
+                else:
+                    j = i - (len(names) - len(defaults))
+                    if j < 0:
+                        raise Unsupported('missing argument %s of local function %s' % (nm, node.name))
+                    env[nm] = self.expr(defaults[j], cenv, mod)
+            try:
+                self.block(node.body, env, mod)
+            except _Return as r:
+                return r.v
+            return None
         if isinstance(f, tuple) and f and f[0] == '#lambda':
             lam, env, mod = f[1], dict(f[2]), f[3]
             for p, a in zip([x.arg for x in lam.args.args], args):
@@ -478,7 +524,7 @@ class Interp:
 
     def _py1(self, v):
         """A lambda of the interpreted program as a Python callable (for sorted(key=...), map, filter ...)."""
-        if isinstance(v, tuple) and v and v[0] == '#lambda':
+        if isinstance(v, tuple) and v and v[0] in ('#lambda', '#def'):
             return lambda *a: self.apply(v, list(a), {})
         return v
 
